@@ -98,6 +98,16 @@ def readFailing (bs : List UInt8) (cut : Nat) : List String :=
 
 def stripDetail (impl : List String) : List String := impl.takeWhile (· != "|")
 
+/-- What the property determines about a result: an accepted mesh is compared token by token; two
+REJECTIONS agree whatever error each names (the property says "returns an error", not which one: a parser
+that reports the same malformed line as `InvalidValue` instead of `UnexpectedEnd` still satisfies it). -/
+def differs (impl model : List String) : Bool :=
+  if impl.head? == some "err" && model.head? == some "err" then false else impl != model
+
+/-- Tag for rejections that name different errors (diagnostic only). -/
+def kindTag (impl model : List String) : List String :=
+  if impl.head? == some "err" && model.head? == some "err" && impl != model then ["error-kind-differs"] else []
+
 def handle (case impl : List String) : Verdict :=
   match case with
   | ["obj", mode, hex] =>
@@ -106,16 +116,16 @@ def handle (case impl : List String) : Verdict :=
     | some bs =>
       let m := renderModel (parseObj ParseF32.parseF32 bs)
       let implC := impl.map canonTok
-      let v := Verdict.ok ([resultTag m, mode] ++ byteTags bs)
-      let v := v.withDiff (implC != m) s!"model {" ".intercalate (m.take 12)}"
+      let v := Verdict.ok ([resultTag m, mode] ++ byteTags bs ++ kindTag implC m)
+      let v := v.withDiff (differs implC m) s!"model {" ".intercalate (m.take 12)}"
       specTotal v impl
   | "objw" :: mode :: hex :: nv :: nf :: rest =>
     match parseHexBytes? hex, nv.toNat?, nf.toNat? with
     | some bs, some nv, some nf =>
       let m := renderModel (parseObj ParseF32.parseF32 bs)
       let implC := impl.map canonTok
-      let v := Verdict.ok ([resultTag m, mode] ++ byteTags bs)
-      let v := v.withDiff (implC != m) s!"model {" ".intercalate (m.take 12)}"
+      let v := Verdict.ok ([resultTag m, mode] ++ byteTags bs ++ kindTag implC m)
+      let v := v.withDiff (differs implC m) s!"model {" ".intercalate (m.take 12)}"
       let v := specTotal v impl
       -- faithfulness: exactly what the generator listed (from the case line, not from the model)
       let wantV := (rest.take (3 * nv)).map canonTok
@@ -137,14 +147,17 @@ def handle (case impl : List String) : Verdict :=
                  else renderDetail (parseObj ParseF32.parseF32 bs)
         let implC := impl.map canonTok
         let v := Verdict.ok ([op, resultTag (stripDetail m)] ++ (if m == ioErrTokens then ["io-error"] else []))
-        let v := v.withDiff (implC != m) s!"model {" ".intercalate (m.take 12)}"
+        -- gating: the result up to the detail tokens; the Display text and source() of an error are not part of
+        -- the property (a reworded message is not a change of behaviour): they only set a tag
+        let v := v.withDiff (differs (stripDetail implC) (stripDetail m)) s!"model {" ".intercalate (m.take 12)}"
+        let v := if implC != m then v.addTag "error-text-differs" else v
         let v := specTotal v (stripDetail impl)
         v.withSpec (op == "objio" && impl.head? == some "ok") "io-error-not-reported"
           "read_obj returned Ok although the reader failed"
     else bad "unknown op"
   | ["objmiss", _] =>
     let m := ["err", "io", "NotFound", "|", "pre", "1"]
-    let v := (Verdict.ok ["objmiss"]).withDiff (impl != m) s!"model {m}"
+    let v := (Verdict.ok ["objmiss"]).withDiff (differs (stripDetail impl) (stripDetail m)) s!"model {m}"
     let v := specTotal v (stripDetail impl)
     v.withSpec (impl.head? != some "err") "missing-file-not-reported" "load_obj of a missing path did not return Err"
   | ["f32", hex] =>
